@@ -145,7 +145,7 @@ theorem chunk_branch_scans_inner_codons (k : ChunkCDS) (L : List Blk)
     (hw : k.chunk.wst = .plus ∨ k.chunk.wst = .minus) (hwl : k.chunk.w.1 < k.chunk.w.2)
     (hsome : (bases ⟨L, k.base.strand⟩).filter (inW k.chunk.w.1 k.chunk.w.2) ≠ []) :
     ∃ (crl : Location) (o : Nat) (ms : List Location), o < 3 ∧
-      chunkBranch k (.compound ⟨L, k.base.strand⟩) = .ok (crl, (o : Int)) ∧
+      chunkBranch k (.compound ⟨L, k.base.strand⟩) (.compound ⟨L, k.base.strand⟩) = .ok (crl, (o : Int)) ∧
       (if ((locLen crl : Nat) : Int) - (o : Int) ≥ 3 then scanWindows3 crl (o : Int) else pure []) = .ok ms ∧
       chunkCodonsMatch ⟨k.chunk.w, k.chunk.wst⟩ k.base.strand
         ((triples (bases ⟨L, k.base.strand⟩)).filter (fun t => t.all (inW k.chunk.w.1 k.chunk.w.2))) ms = true :=
